@@ -430,6 +430,36 @@ func subjectFor(r *mon.Rec, kind string, idx int, typed map[int]string) subject 
 			o, _ := g.AnyOption(2)
 			return opsOf(o)
 		}, true}
+	case "v6exch":
+		// the messages of an address / prefix exchange, as the builders and the netboot extractors are meant to be fed:
+		// SOLICIT, ADVERTISE, REQUEST, REPLY with client and server identifier, IA_NA (address with lifetimes), often an
+		// IA_PD, now and then the boot file options.  The read-only operations include the builders and extractors
+		// (obs.V6Helpers): building an answer or extracting a configuration leaves the message what it was.
+		return subject{"message of a DHCPv6 exchange", func() []op {
+			rng := seedRng()
+			g := gen6.New(rng, isTypedFn(typed))
+			g.Budget = 40
+			g.NoV4 = true
+			m := &dhcpv6.Message{MessageType: []dhcpv6.MessageType{2, 7, 2, 7, 1, 3}[rng.IntN(6)]}
+			copy(m.TransactionID[:], gen4.Bytes(rng, 3))
+			for _, c := range []int{1, 2, 3} {
+				if rng.IntN(8) != 0 {
+					o, _ := g.Option(c, 2)
+					m.AddOption(o)
+				}
+			}
+			if rng.IntN(2) == 0 {
+				o, _ := g.Option(25, 2)
+				m.AddOption(o)
+			}
+			if rng.IntN(4) == 0 {
+				m.AddOption(dhcpv6.OptBootFileURL("tftp://[2001:db8::1]/boot.efi"))
+			}
+			if rng.IntN(4) == 0 {
+				m.AddOption(&dhcpv6.OptionGeneric{OptionCode: dhcpv6.OptionRapidCommit})
+			}
+			return opsOf(m)
+		}, true}
 	case "labels":
 		// a label set parsed from bytes their encoder would not have written (compressed, partial, many pointers, names
 		// at the length limit), possibly edited by its owner.  Besides the read-only methods there is one operation that
@@ -592,7 +622,7 @@ func opt4(r *rand.Rand) []op {
 	return ops
 }
 
-var kinds = []string{"v4gen", "v4dec", "v6gen", "v6dec", "v6dec-nc", "opt6", "duid", "opt4", "opt4", "labels"}
+var kinds = []string{"v4gen", "v4dec", "v6gen", "v6dec", "v6dec-nc", "opt6", "duid", "opt4", "opt4", "labels", "v6exch"}
 
 // raceRun: two goroutines run the same read-only call list on one value concurrently (only meaningful under -race).
 func raceRun(s subject) {
